@@ -364,7 +364,18 @@ impl RunOut {
         let rounds = self.rounds.iter().map(|r| format!("{}/{}/{}", r.largest_ttl,
             if r.reason == CompletionReason::TargetFound { "tf" } else { "tl" },
             r.probes.iter().map(render_status).collect::<Vec<_>>().join(","))).collect::<Vec<_>>().join(";");
-        format!("res={} sends={} rounds={}", self.result, if sends.is_empty() { "-" } else { &sends }, if rounds.is_empty() { "-" } else { &rounds })
+        let snap = match (&self.snapshot, self.result.starts_with("fault")) {
+            (Some(st), false) => {
+                let mut ids: Vec<u64> = vec![0];
+                ids.extend(st.flows().iter().map(|(_, id)| id.0));
+                match std::panic::catch_unwind(std::panic::AssertUnwindSafe(|| crate::m_state::render_state(st, &ids))) {
+                    Ok(s) => s.replace(' ', "!"),
+                    Err(_) => "fault:panic".to_string(),
+                }
+            }
+            _ => "-".to_string(),
+        };
+        format!("res={} sends={} rounds={} snap={}", self.result, if sends.is_empty() { "-" } else { &sends }, if rounds.is_empty() { "-" } else { &rounds }, snap)
     }
 }
 
